@@ -531,7 +531,15 @@ def search_histories(ctx, n, viol):
         tag = int(rng.randint(len(TAGS)))
         seed = int(rng.randint(10 ** 6))
         m = mk_model(tag, dim, anis, angles)
-        srf = gs.SRF(m, generator="Fourier", period=period, mode_no=mno, seed=seed)
+        if t % 3 == 1:
+            # the period handed over as the caller's own float64 array, which the caller goes on using afterwards: the generator's
+            # period is the VALUE it was given
+            p_arr = np.array(period, dtype=float)
+            srf = gs.SRF(m, generator="Fourier", period=p_arr, mode_no=mno, seed=seed)
+            p_arr *= 1.7
+            p_arr += 3.0
+        else:
+            srf = gs.SRF(m, generator="Fourier", period=period, mode_no=mno, seed=seed)
         trace = []
         for step in range(int(rng.randint(1, 6))):
             kind = str(rng.choice(["period", "mode_no", "model", "inplace_anis", "inplace_len", "inplace_angles", "update_same_model",
